@@ -77,3 +77,43 @@ Print Assumptions C07_variant_spec_ok_sound.
 Theorem C07_debug_enum_fmt_rejected : forall cc vs, g_expand_enum cc true vs = RErr E_debug_enum_fmt.
 Proof. exact debug_enum_fmt_rejected. Qed.
 Print Assumptions C07_debug_enum_fmt_rejected.
+
+(** semantic reading: with [_variant] mentioned, every variant prints the enum-level format evaluated with
+    [_variant] bound to the text the variant prints by itself (own attribute / single field / name) *)
+Theorem C07_wrap_semantics_own_attr : forall cc (value out fspec : Type) (render : trait -> value -> fspec -> out)
+    (run : fmt_attr -> list ident -> (ident -> value) -> out) (text_value : out -> value) (name_text : str -> out)
+    (default_fspec : fspec) (eval : texpr -> (ident -> value) -> value) d sa a env sp,
+  d_shared d = Some sa -> mentions_variant cc sa = true -> bare_same_trait cc sa (d_trait d) = false ->
+  d_fmt d = Some a ->
+  exists b, d_generate_body cc d = ROk b /\
+    sem value out fspec render run text_value name_text default_fspec eval b env sp =
+    sem value out fspec render run text_value name_text default_fspec eval (shared_body cc d sa)
+        (bind value variant_ident (text_value (run a (additional_deref_args cc a (d_fields d)) env)) env) sp.
+Proof. exact wrap_semantics_own_attr. Qed.
+Print Assumptions C07_wrap_semantics_own_attr.
+
+Theorem C07_wrap_semantics_unit : forall cc (value out fspec : Type) (render : trait -> value -> fspec -> out)
+    (run : fmt_attr -> list ident -> (ident -> value) -> out) (text_value : out -> value) (name_text : str -> out)
+    (default_fspec : fspec) (eval : texpr -> (ident -> value) -> value) d sa env sp,
+  d_shared d = Some sa -> mentions_variant cc sa = true -> bare_same_trait cc sa (d_trait d) = false ->
+  d_fmt d = None -> fl (d_fields d) = [] ->
+  exists b, d_generate_body cc d = ROk b /\
+    sem value out fspec render run text_value name_text default_fspec eval b env sp =
+    sem value out fspec render run text_value name_text default_fspec eval (shared_body cc d sa)
+        (bind value variant_ident (text_value (name_text (d_name d))) env) sp.
+Proof. exact wrap_semantics_unit. Qed.
+Print Assumptions C07_wrap_semantics_unit.
+
+(** ... and without a mention it is a default only *)
+Theorem C07_default_semantics : forall cc (value out fspec : Type) (render : trait -> value -> fspec -> out)
+    (run : fmt_attr -> list ident -> (ident -> value) -> out) (text_value : out -> value) (name_text : str -> out)
+    (default_fspec : fspec) (eval : texpr -> (ident -> value) -> value) d sa env sp,
+  d_shared d = Some sa -> mentions_variant cc sa = false ->
+  exists b, d_generate_body cc d = ROk b /\
+    sem value out fspec render run text_value name_text default_fspec eval b env sp =
+    match d_fmt d with
+    | Some a => sem value out fspec render run text_value name_text default_fspec eval (own_body cc d a) env sp
+    | None => sem value out fspec render run text_value name_text default_fspec eval (shared_body cc d sa) env sp
+    end.
+Proof. exact default_semantics. Qed.
+Print Assumptions C07_default_semantics.
